@@ -145,6 +145,37 @@ mod venc {
         v
     }
 
+    /// a valid proof in which one ciphertext of a slot is replaced by a WELL-FORMED PKCS#1 v1.5 encryption (under the
+    /// receiver's key) of a plaintext that is not a label-masked scalar: plaintexts of 0..=117 bytes, so that the value
+    /// `decrypt` recovers after removing the label is shorter than, as long as, or much longer than the scalar width.
+    /// Random or mutated ciphertexts never get past the padding check; these do, and reach the scalar decoding.
+    fn valid_ciphertext_slots(r: &mut ChaCha20Rng, valid: &[u8], pk: &sl_verifiable_enc::rsa::RsaPublicKey, psize: usize) -> Vec<(String, Vec<u8>)> {
+        use sl_verifiable_enc::rsa::Pkcs1v15Encrypt;
+        let enc = 128usize;
+        let slot = psize + 2 * enc;
+        let mut v = vec![];
+        for (n, len) in [0usize, 1, 31, 32, 33, 64, 100, 117].into_iter().enumerate() {
+            let mut pt = vec![0u8; len];
+            r.fill_bytes(&mut pt);
+            if len > 0 && n % 2 == 0 { pt[0] = 0xff; }
+            let Ok(ct) = pk.encrypt(r, Pkcs1v15Encrypt, &pt) else { continue };
+            if ct.len() != enc { continue; }
+            for (i, side) in [(0usize, 0usize), (0, 1), (127, n % 2)] {
+                let mut m = valid.to_vec();
+                let o = 40 + i * slot + psize + side * enc;
+                m[o..o + enc].copy_from_slice(&ct);
+                v.push((format!("valid-rsa-ciphertext-pt{len}"), m));
+            }
+            // both halves of slot 0 well-formed but foreign
+            let mut m = valid.to_vec();
+            let o = 40 + psize;
+            m[o..o + enc].copy_from_slice(&ct);
+            m[o + enc..o + 2 * enc].copy_from_slice(&ct);
+            v.push((format!("valid-rsa-ciphertext-both-pt{len}"), m));
+        }
+        v
+    }
+
     pub fn run(rec: &mut Rec, seed: u64, scale: usize) {
         use group::Group;
         let mut r = rng(seed, "c11-venc");
@@ -227,6 +258,7 @@ mod venc {
                 }
             }
             inputs.extend(consistent_headers(&mut r, 33));
+            inputs.extend(valid_ciphertext_slots(&mut r, &valid, &pk, 33));
             for (kind, bytes) in inputs {
                 rec.case("venc.k256.from_bytes+verify+decrypt", &kind, &bytes, || {
                     match VerifiableRsaEncryption::<ProjectivePoint>::from_bytes(&bytes) {
@@ -256,6 +288,7 @@ mod venc {
                 inputs.push(("hdr-sp".into(), m));
             }
             inputs.extend(consistent_headers(&mut r, 32));
+            inputs.extend(valid_ciphertext_slots(&mut r, &valid, &pk, 32));
             for (kind, bytes) in inputs {
                 rec.case("venc.ed25519.from_bytes+verify+decrypt", &kind, &bytes, || {
                     match VerifiableRsaEncryption::<EdwardsPoint>::from_bytes(&bytes) {
